@@ -294,14 +294,23 @@ JALoop(st, obs, starts, lens, total, tl) ==
 
 (* reported: n bytes, error e, side effects obs, segs = starts of the messages found in the output, in order, *)
 (* rest = trailing bytes that are a prefix of the next message (restOK)                                       *)
-JAAllowed(j, n, e, obs, segs, rest, restOK) ==
+(* segs[i] = the messages whose content equals the i-th piece of the output (several if contents coincide) *)
+SegsOK(starts, segs) == Len(segs) = Len(starts) /\ \A i \in 1..Len(starts) : starts[i] \in Rng(segs[i])
+(* an empty message joined with an empty terminator leaves no trace in the output *)
+RECURSIVE Visible(_, _, _)
+Visible(starts, lens, tl) ==
+  IF starts = << >> THEN << >>
+  ELSE IF Head(lens) + tl = 0 THEN Visible(Tail(starts), Tail(lens), tl)
+  ELSE << Head(starts) >> \o Visible(Tail(starts), Tail(lens), tl)
+
+JAAllowed(j, tl, n, e, obs, segs, rest, restOK) ==
   IF j.w.res = "wild" THEN TRUE
   ELSE /\ IsErr(e) /\ ObsOK(j.w, obs) /\ restOK
        /\ IF j.w.res = "eom" THEN
              \* the last message ended together with the transport fault: it may or may not be included
-             \/ segs = j.starts /\ n = j.total + rest /\ rest <= j.partial
-             \/ segs = Append(j.starts, j.s.start) /\ rest = 0
-          ELSE /\ segs = j.starts /\ n = j.total + rest /\ rest <= j.partial
+             \/ SegsOK(Visible(j.starts, j.lens, tl), segs) /\ n = j.total + rest /\ rest <= j.partial
+             \/ SegsOK(Visible(Append(j.starts, j.s.start), Append(j.lens, j.partial), tl), segs) /\ rest = 0
+          ELSE /\ SegsOK(Visible(j.starts, j.lens, tl), segs) /\ n = j.total + rest /\ rest <= j.partial
                /\ (j.w.res = "failed" \/ ErrFits(j.w, e))
 
 JANext(j, e) == [j.s EXCEPT !.failed = TRUE, !.nrid = e.id, !.rd = "none", !.nerr = j.s.nerr + 1]
